@@ -26,13 +26,15 @@ Proof. exact all_configs_resolve_l. Qed.
 Print Assumptions all_configs_resolve.
 
 (* ... where "resolves" means: get_resource_config returns (the merged
-   configuration verifies against the schema), the resource manager, every
+   configuration verifies against the schema), the job-manager and file-system
+   endpoints are defined, the resource manager, every
    launch method of the launch order (none skipped, order non-empty), the
    agent scheduler and the executor are classes of the factory tables, and
    the agent configuration is one of the agent_*.json files. *)
 Theorem resolves_meaning :
   forall r, resolves_ok r = true <->
     exists x, r = inr x /\
+      (exists jm fs, r_jm x = Some jm /\ r_fs x = Some fs) /\
       (exists c, r_rm x = inr c) /\
       (exists l, r_lm x = inr l /\ l_order l <> [] /\ l_skipped l = [] /\
                  forall n, In n (l_order l) ->
